@@ -583,6 +583,9 @@ def gen(rng, tier, profile, count, schemes=ALL):
             inject_bound_violation(rng, c)
         if profile == "c07":
             c.set("c07", 1)
+        if profile == "c12":
+            c.set("c12", 1)
+            c.meta["model_silent_ok"] = False
         if profile == "c06":
             add_history(rng, c, kinds=("lc",), nops=rng.randint(1, 2))
         elif profile == "c11":
@@ -590,6 +593,8 @@ def gen(rng, tier, profile, count, schemes=ALL):
                         lc_opts={"shared_values": False})
         elif profile == "c01":
             add_history(rng, c, kinds=("single", "batch", "batch"), perms=True)
+        elif profile == "c12":
+            add_history(rng, c, kinds=("single", "batch", "lc"), nops=3, lc_opts={"shared_values": False})
         else:
             add_history(rng, c, kinds=("single", "batch"))
         add_mutations(rng, c, profile)
